@@ -12,6 +12,7 @@ import (
 	"go/token"
 	"os"
 	"path/filepath"
+	"regexp"
 	"sort"
 	"strings"
 	"time"
@@ -286,7 +287,8 @@ func classifyExit(r hx.RunResult) string {
 		return "crash"
 	case r.Exit == 0:
 		return "ok"
-	case strings.Contains(r.Out, "Add Error"):
+	case strings.Contains(r.Out, "Add Error"), strings.Contains(r.Out, "not rewriting "):
+		// newPackage returned an error: a plugin's Add Error or the refusal to rewrite a file that does not parse
 		return "adderr"
 	case strings.Contains(r.Out, "Generator Error"):
 		return "generr"
@@ -433,7 +435,93 @@ func (rn *runner) run(root string, sc *scenario, keep bool) (*outcomeT, error) {
 		o.names[rel] = names
 	}
 	sort.Strings(o.touched)
+	if o.class == "ok" && sc.flagsSet() {
+		rn.checkAnnounced(sc, root, old, res.Out)
+	}
 	return o, nil
+}
+
+var renameMsg = regexp.MustCompile(`changing function call name from (\S+) to (\S+)`)
+
+// checkAnnounced: goderive announces every call it renames ("changing function call name from X to Y")
+// and generates Y.  After a successful run the call sites in the files must have followed: for every name,
+// (sites after) - (sites before) = (renamings to it) - (renamings from it), whatever the number of passes.
+// Nothing is concluded when no such message is printed (the wording is not part of the property).
+func (rn *runner) checkAnnounced(sc *scenario, root string, old map[string][]byte, out string) {
+	ms := renameMsg.FindAllStringSubmatch(out, -1)
+	if len(ms) == 0 {
+		return
+	}
+	want := map[string]int{}
+	for _, m := range ms {
+		want[m[1]]--
+		want[m[2]]++
+	}
+	got := map[string]int{}
+	extra := map[string]string{}
+	for rel, b := range old {
+		if filepath.Base(rel) == "derived.gen.go" {
+			continue
+		}
+		nb, err := os.ReadFile(filepath.Join(root, rel))
+		if err != nil {
+			continue
+		}
+		for _, id := range callIdentsScan(b) {
+			got[id.name]--
+		}
+		for _, id := range callIdentsScan(nb) {
+			got[id.name]++
+		}
+		if sc.processed(rel) {
+			extra["AFTER:"+rel] = string(nb)
+		}
+	}
+	var bad []string
+	for n, w := range want {
+		if got[n] != w {
+			bad = append(bad, fmt.Sprintf("%s: %+d call sites, announced %+d", n, got[n], w))
+		}
+	}
+	for n, g := range got {
+		if _, ok := want[n]; !ok && g != 0 {
+			bad = append(bad, fmt.Sprintf("%s: %+d call sites, announced +0", n, g))
+		}
+	}
+	rn.meta.Count("announced-renamings-checked")
+	if len(bad) > 0 {
+		sort.Strings(bad)
+		rn.direct(sc, "c10-renamed-call-not-substituted",
+			fmt.Sprintf("goderive exits 0 having renamed %d calls (and generated the new names), but the call identifiers in the source files did not follow: %s",
+				len(ms), strings.Join(bad, "; ")), out, extra)
+	}
+}
+
+// rerunWithoutFlags: after a successful run under -autoname/-dedup every call site carries the name that was
+// generated for its argument types, so goderive WITHOUT the flags must accept the package as it is now and touch
+// nothing (the snapshot check of run sees to the latter).
+func (rn *runner) rerunWithoutFlags(root string, sc *scenario) error {
+	s3 := *sc
+	s3.Flags = nil
+	s3.second = true
+	out, err := rn.run(root, &s3, true)
+	if err != nil {
+		return err
+	}
+	rn.meta.Count("rerun-without-flags")
+	if out.class == "adderr" {
+		extra := map[string]string{}
+		for rel := range sc.Files {
+			if strings.HasSuffix(rel, ".go") && sc.processed(rel) {
+				if b, err := os.ReadFile(filepath.Join(root, rel)); err == nil {
+					extra["AFTER:"+rel] = string(b)
+				}
+			}
+		}
+		rn.direct(sc, "c10-renamed-call-not-substituted",
+			fmt.Sprintf("goderive %v succeeded, but the files it left behind are refused without the flags: a call it renamed still carries its old name", sc.Flags), out.out, extra)
+	}
+	return nil
 }
 
 func (rn *runner) checkRewrite(sc *scenario, ch change, oldb, newb []byte, eb, ea entry, out string) {
